@@ -16,6 +16,7 @@ import (
 	"sync/atomic"
 	"time"
 
+	"github.com/pion/ice/v4/internal/verifhook"
 	"github.com/pion/logging"
 	"github.com/pion/stun/v3"
 	"github.com/pion/transport/v4"
@@ -201,6 +202,7 @@ func (m *UDPMuxDefault) GetConn(ufrag string, addr net.Addr) (net.PacketConn, er
 		muxedConn = m.createMuxedConn(ufrag)
 		go func() {
 			<-muxedConn.CloseChannel()
+			verifhook.Yield("udpmux.GetConn.autoRemove")
 			m.RemoveConnByUfrag(ufrag)
 		}()
 
@@ -241,6 +243,7 @@ func (m *UDPMuxDefault) RemoveConnByUfrag(ufrag string) {
 		return
 	}
 
+	verifhook.Yield("udpmux.RemoveConnByUfrag.betweenLocks")
 	m.addressMapMu.Lock()
 	defer m.addressMapMu.Unlock()
 
@@ -313,6 +316,8 @@ func (m *UDPMuxDefault) writeToUDPAddrPort(buf []byte, rAddr netip.AddrPort) (n 
 		err = m.finishWrite(err)
 	}()
 
+	verifhook.Yield("udpmux.writeTo.beforeSocketWrite")
+
 	return m.addrPortConn.WriteToAddrPort(buf, rAddr)
 }
 
@@ -342,7 +347,9 @@ func (m *UDPMuxDefault) writeToContext(ctx context.Context, buf []byte, rAddr ne
 		go func() {
 			select {
 			case <-done:
+				verifhook.Yield("udpmux.writeToContext.abortGoroutine.woken")
 				if !stopped.Load() {
+					verifhook.Yield("udpmux.writeToContext.abortGoroutine.beforeAbort")
 					if abortErr := m.abortWrite(); abortErr != nil {
 						m.params.Logger.Warnf("Failed to abort UDP write: %v", abortErr)
 					}
@@ -352,6 +359,7 @@ func (m *UDPMuxDefault) writeToContext(ctx context.Context, buf []byte, rAddr ne
 		}()
 	}
 
+	verifhook.Yield("udpmux.writeTo.beforeSocketWrite")
 	n, err = m.params.UDPConn.WriteTo(buf, rAddr)
 	if err != nil {
 		if ctxErr := ctx.Err(); ctxErr != nil {
@@ -364,23 +372,28 @@ func (m *UDPMuxDefault) writeToContext(ctx context.Context, buf []byte, rAddr ne
 
 func (m *UDPMuxDefault) abortWrite() error {
 	for {
+		verifhook.Yield("udpmux.abortWrite.beforeLoad")
 		state := m.writeState.Load()
 		if state&udpMuxWriteBlockedBit != 0 || state&udpMuxWriteCountMask == 0 {
 			return nil
 		}
 
+		verifhook.Yield("udpmux.abortWrite.beforeCAS")
 		if !m.writeState.CompareAndSwap(state, state|udpMuxWriteBlockedBit) {
 			continue
 		}
 
+		verifhook.Yield("udpmux.abortWrite.beforeSetDeadline")
 		// The deadline applies to the shared UDPConn, so blocked stays set
 		// until the final in-flight writer clears the deadline in finishWrite.
 		if err := m.params.UDPConn.SetWriteDeadline(time.Now()); err != nil {
+			verifhook.Yield("udpmux.abortWrite.beforeClearState")
 			m.clearWriteAbortState()
 
 			return err
 		}
 
+		verifhook.Yield("udpmux.abortWrite.beforeArmed")
 		m.setWriteDeadlineArmed()
 
 		return nil
@@ -393,13 +406,16 @@ func (m *UDPMuxDefault) startWriteContext(ctx context.Context) error {
 			return err
 		}
 
+		verifhook.Yield("udpmux.startWrite.beforeLoad")
 		state := m.writeState.Load()
 		if state&udpMuxWriteBlockedBit != 0 {
+			verifhook.Yield("udpmux.startWrite.spin")
 			runtime.Gosched()
 
 			continue
 		}
 
+		verifhook.Yield("udpmux.startWrite.beforeCAS")
 		if m.writeState.CompareAndSwap(state, state+1) {
 			return nil
 		}
@@ -408,6 +424,7 @@ func (m *UDPMuxDefault) startWriteContext(ctx context.Context) error {
 
 func (m *UDPMuxDefault) finishWrite(writeErr error) error {
 	for {
+		verifhook.Yield("udpmux.finishWrite.beforeLoad")
 		state := m.writeState.Load()
 		count := state & udpMuxWriteCountMask
 		if count == 0 {
@@ -415,13 +432,17 @@ func (m *UDPMuxDefault) finishWrite(writeErr error) error {
 		}
 
 		if state&udpMuxWriteBlockedBit != 0 && count == 1 {
+			verifhook.Yield("udpmux.finishWrite.beforeCASLast")
 			if !m.writeState.CompareAndSwap(state, state-1) {
 				continue
 			}
 
+			verifhook.Yield("udpmux.finishWrite.beforeClear")
+
 			return m.clearWriteDeadlineAfterAbort(writeErr)
 		}
 
+		verifhook.Yield("udpmux.finishWrite.beforeCAS")
 		if m.writeState.CompareAndSwap(state, state-1) {
 			return writeErr
 		}
@@ -430,10 +451,12 @@ func (m *UDPMuxDefault) finishWrite(writeErr error) error {
 
 func (m *UDPMuxDefault) setWriteDeadlineArmed() {
 	for {
+		verifhook.Yield("udpmux.setArmed.beforeLoad")
 		state := m.writeState.Load()
 		if state&udpMuxWriteBlockedBit == 0 || state&udpMuxWriteDeadlineBit != 0 {
 			return
 		}
+		verifhook.Yield("udpmux.setArmed.beforeCAS")
 		if m.writeState.CompareAndSwap(state, state|udpMuxWriteDeadlineBit) {
 			return
 		}
@@ -442,6 +465,7 @@ func (m *UDPMuxDefault) setWriteDeadlineArmed() {
 
 func (m *UDPMuxDefault) clearWriteDeadlineAfterAbort(writeErr error) error {
 	for {
+		verifhook.Yield("udpmux.clearDeadline.beforeLoad")
 		state := m.writeState.Load()
 		if state&udpMuxWriteBlockedBit == 0 {
 			return writeErr
@@ -449,12 +473,15 @@ func (m *UDPMuxDefault) clearWriteDeadlineAfterAbort(writeErr error) error {
 		if state&udpMuxWriteDeadlineBit == 0 {
 			// The last writer can race with abortWrite after blocked is set but
 			// before SetWriteDeadline returns.
+			verifhook.Yield("udpmux.clearDeadline.spin")
 			runtime.Gosched()
 
 			continue
 		}
 
+		verifhook.Yield("udpmux.clearDeadline.beforeSetDeadline")
 		clearErr := m.params.UDPConn.SetWriteDeadline(time.Time{})
+		verifhook.Yield("udpmux.clearDeadline.beforeStore")
 		m.writeState.Store(0)
 		if writeErr == nil {
 			return clearErr
@@ -471,6 +498,7 @@ func (m *UDPMuxDefault) clearWriteAbortState() {
 		if state == newState {
 			return
 		}
+		verifhook.Yield("udpmux.clearAbortState.beforeCAS")
 		if m.writeState.CompareAndSwap(state, newState) {
 			return
 		}
@@ -482,6 +510,7 @@ func (m *UDPMuxDefault) registerConnForAddress(conn *udpMuxedConn, addr netip.Ad
 		return
 	}
 
+	verifhook.Yield("udpmux.registerConnForAddress.beforeLock")
 	m.addressMapMu.Lock()
 	defer m.addressMapMu.Unlock()
 
@@ -569,6 +598,7 @@ func (m *UDPMuxDefault) connWorker() { //nolint:cyclop
 		m.addressMapMu.Lock()
 		destinationConn := m.addressMap[srcAddr]
 		m.addressMapMu.Unlock()
+		verifhook.Yield("udpmux.connWorker.afterAddrLookup")
 
 		// If we haven't seen this address before but is a STUN packet lookup by ufrag
 		if destinationConn == nil && stun.IsMessage(buf[:n]) {
@@ -603,6 +633,7 @@ func (m *UDPMuxDefault) connWorker() { //nolint:cyclop
 			continue
 		}
 
+		verifhook.Yield("udpmux.connWorker.beforeHandOver")
 		if err = destinationConn.writePacket(buf[:n], srcAddrPort, srcUDPAddr); err != nil {
 			m.params.Logger.Errorf("Failed to write packet: %v", err)
 		}
